@@ -8,3 +8,4 @@
 #define _ZN10QByteArray10fromBase64ERKS_ qtcore_unused_fromBase64
 #define _ZN10QByteArray10fromBase64ERKS_6QFlagsINS_12Base64OptionEE qtcore_unused_fromBase64_opt
 #define _ZNK10QByteArray5toIntEPbi qtcore_QByteArray_toInt
+#define _ZNK10QByteArray7indexOfEci qtcore_QByteArray_indexOf
